@@ -413,6 +413,7 @@ func (cx *Ctx) checkErrDiscipline(r *Report, fns []*ssa.Function) int {
 		if !hasFallible {
 			continue
 		}
+		cx.checkLoopCarriedError(r, fn)
 		cx.checkResultsUsedAfterErrTest(r, fn)
 		res := fn.Signature.Results()
 		key := w.FuncKey(fn)
@@ -588,6 +589,76 @@ func (cx *Ctx) checkResultsUsedAfterErrTest(r *Report, fn *ssa.Function) {
 					}
 				}
 				r.Check(okDom, "R-ERR", w.FuncKey(fn)+":"+shortCallee(calleeName(call))+":result-before-error-test", w.InstrPos(use), "used only where the error was found nil", "a result of "+shortCallee(calleeName(call))+" is dereferenced at "+w.InstrPos(use)+" where its error has not been found nil: what comes with an error (a typed nil, an expired record) is acted on")
+			}
+		}
+	}
+}
+
+// checkLoopCarriedError (R-ERR): an error variable that lives across the iterations of a loop and decides after it
+// (`var err error; for ... { if err = f(); err != nil { log } }; if err != nil { fail }`) must not be overwritten with the
+// nil result of a later iteration: the phi of the variable at the loop header may not receive, on a back edge, the
+// result of a fallible call on the side where that very result was found nil - while the side where it was found
+// non-nil also continues the loop. Then only the last iteration decides and an earlier failure is forgotten.
+func (cx *Ctx) checkLoopCarriedError(r *Report, fn *ssa.Function) {
+	w, fx := cx.W, cx.Fx
+	fi := fx.info(fn)
+	for _, b := range fn.Blocks {
+		if !fi.reachable(b, b) {
+			continue
+		}
+		for _, in := range b.Instrs {
+			phi, ok := in.(*ssa.Phi)
+			if !ok || !isErrorType(phi.Type()) {
+				continue
+			}
+			// the variable is tested for nil somewhere (it decides)
+			decides := false
+			for _, ref := range nonDebugRefs(phi) {
+				if bo, isB := ref.(*ssa.BinOp); isB {
+					if _, _, isNT := nilTest(bo); isNT {
+						decides = true
+					}
+				}
+			}
+			if !decides {
+				continue
+			}
+			for i, e := range phi.Edges {
+				pred := b.Preds[i]
+				if !fi.reachable(b, pred) {
+					continue // not a back edge
+				}
+				var call *ssa.Call
+				switch x := e.(type) {
+				case *ssa.Call:
+					call = x
+				case *ssa.Extract:
+					call, _ = x.Tuple.(*ssa.Call)
+				}
+				if call == nil {
+					continue
+				}
+				foundNil := false
+				pe := fx.path(e)
+				for _, a := range fx.AtomsOnEdge(pred, b) {
+					if a.Op == "NIL" && !a.Neg && a.A == pe {
+						foundNil = true
+					}
+				}
+				if !foundNil {
+					continue
+				}
+				// ... and the failing side comes back as well
+				nonNil, _ := fx.errBranches(e)
+				loops := false
+				for _, nb := range nonNil {
+					if nb != b && fi.reachable(nb, b) && fi.reachable(b, nb) {
+						loops = true
+					}
+				}
+				if loops {
+					r.Fail("R-ERR", w.FuncKey(fn)+":loop-carried-error", w.InstrPos(call), "the error of "+shortCallee(calleeName(call))+" is kept in a variable that the next iteration overwrites, also with nil: after the loop only the last iteration decides, an earlier failure is forgotten and the success path is taken")
+				}
 			}
 		}
 	}
